@@ -768,3 +768,125 @@ def selfcheck_extract(traced, reps=10, seed=0):
         if not np.allclose(got, want, rtol=1e-13, atol=0):
             return ["extract_vars"]
     return []
+
+
+# ------------------------------------------------------------------ diagnostics.py texture / strain diagnostics (C13)
+class _LaShim:
+    """stands in for `scipy.linalg` inside diagnostics.py: the eigen-decompositions are EXTERNAL (parameters of the model); the shim
+    records the matrix handed to LAPACK and returns symbolic eigenvalues / eigenvectors"""
+
+    def __init__(self):
+        self.passed = []
+        self.k = 0
+
+    def _w(self):
+        self.k += 1
+        tag = f"w{self.k}" if self.k > 1 or self.two else "w"
+        return sym_vector(tag, 3)
+
+    two = False
+
+    def eigvalsh(self, a, *args, **kw):
+        self.passed.append(np.array(a, dtype=object))
+        return self._w()
+
+    def eigh(self, a, *args, **kw):
+        self.passed.append(np.array(a, dtype=object))
+        return self._w(), sym_matrix("V")
+
+    def norm(self, v, *a, **k):
+        v = [Expr.of(x) for x in v]
+        s = v[0] * v[0] + v[1] * v[1] + v[2] * v[2]
+        return Expr(f"(Rsqrt {s.s})", lambda env, s=s: math.sqrt(s.v(env)))
+
+
+def trace_diag():
+    from pydrex import diagnostics as D
+    from pydrex import stats as S
+
+    real_np, real_snp, real_la = D.np, S.np, D.la
+    out = {}
+    try:
+        D.np, S.np = NpShim(real_np), NpShim(real_snp)
+        O = np.empty((2, 3, 3), dtype=object)
+        O[0], O[1] = sym_matrix("A0"), sym_matrix("A1")
+        for row, ax in enumerate("abc"):
+            la = _LaShim()
+            D.la = la
+            pgr = D.symmetry_pgr(O, axis=ax)
+            out[f"scatter_{row}"] = la.passed[0]
+            if row == 0:
+                out["pgr"] = np.array(list(pgr), dtype=object)
+        la = _LaShim()
+        la.two = True
+        D.la = la
+        out["coaxial"] = D.coaxial_index(O)
+        la = _LaShim()
+        D.la = la
+        out["bingham"] = np.array(list(D.bingham_average(O, axis="a")), dtype=object)
+        la = _LaShim()
+        D.la = la
+        s_, v_ = D.finite_strain(sym_matrix("F"))
+        out["fseB"] = la.passed[0]
+        out["fse_s"], out["fse_v"] = s_, np.array(list(v_), dtype=object)
+    finally:
+        D.np, S.np, D.la = real_np, real_snp, real_la
+    return out
+
+
+def _vec_text(v):
+    return "(fun i => match i with " + " ".join(f"| {i} => {Expr.of(v[i]).s}" for i in range(3)) + ")"
+
+
+def emit_diag(t, path=None):
+    mat = lambda M: "(fun i j => match i, j with " + " ".join(f"| {i}, {j} => {Expr.of(M[i, j]).s}" for i in range(3) for j in range(3)) + ")"  # noqa: E731
+    lines = ["-- GENERATED on every run by harness/trace/tracer.py from /repo/src/pydrex/diagnostics.py and stats.py -- do not edit",
+             "import ModelR.Diag", "noncomputable section", "namespace ModelR.Diag", ""]
+    for row in range(3):
+        lines.append(f"def traced_scatter_{row} (A0 A1 : Mat3) : Mat3 :=\n  {mat(t[f'scatter_{row}'])}\n")
+    lines.append(f"def traced_pgr (w : Vec3) : ℝ × ℝ × ℝ :=\n  ({Expr.of(t['pgr'][0]).s}, {Expr.of(t['pgr'][1]).s}, {Expr.of(t['pgr'][2]).s})\n")
+    lines.append(f"def traced_coaxial (w1 w2 : Vec3) : ℝ :=\n  {Expr.of(t['coaxial']).s}\n")
+    lines.append(f"def traced_bingham (V : Mat3) : Vec3 :=\n  {_vec_text(t['bingham'])}\n")
+    lines.append(f"def traced_fseB (F : Mat3) : Mat3 :=\n  {mat(t['fseB'])}\n")
+    lines.append(f"def traced_fse (w : Vec3) (V : Mat3) : ℝ × Vec3 :=\n  ({Expr.of(t['fse_s']).s}, {_vec_text(t['fse_v'])})\n")
+    lines += ["end ModelR.Diag", ""]
+    text = "\n".join(lines)
+    path = path or (GEN / "TracedDiag.lean")
+    if not path.exists() or path.read_text() != text:
+        path.write_text(text)
+    return text
+
+
+def selfcheck_diag(t, reps=10, seed=0):
+    """the printed expressions against the real functions, with the real LAPACK results substituted for the symbolic externals"""
+    from pydrex import diagnostics as D
+    from pydrex import stats as S
+    from scipy import linalg as la
+
+    rng = np.random.default_rng(seed)
+    for _ in range(reps):
+        A = rng.normal(size=(2, 3, 3))
+        F = np.eye(3) + 0.5 * rng.normal(size=(3, 3))
+        env = {"A0": A[0], "A1": A[1], "F": F}
+        for row in range(3):
+            got = np.array([[Expr.of(t[f"scatter_{row}"][i, j]).v(env) for j in range(3)] for i in range(3)])
+            if not np.allclose(got, S._scatter_matrix(A, row), rtol=1e-13, atol=1e-300):
+                return [f"scatter_{row}"]
+        w = la.eigvalsh(S._scatter_matrix(A, 0))
+        if not np.allclose([Expr.of(x).v({"w": w}) for x in t["pgr"]], D.symmetry_pgr(A, axis="a"), rtol=1e-12):
+            return ["pgr"]
+        w1, w2 = la.eigvalsh(S._scatter_matrix(A, 1)), la.eigvalsh(S._scatter_matrix(A, 0))
+        if not np.isclose(Expr.of(t["coaxial"]).v({"w1": w1, "w2": w2}), D.coaxial_index(A), rtol=1e-12):
+            return ["coaxial"]
+        wv, V = la.eigh(S._scatter_matrix(A, 0))
+        if not np.allclose([Expr.of(x).v({"V": V, "w": wv}) for x in t["bingham"]], D.bingham_average(A, axis="a"), rtol=1e-12):
+            return ["bingham"]
+        B = np.array([[Expr.of(t["fseB"][i, j]).v(env) for j in range(3)] for i in range(3)])
+        if not np.allclose(B, F @ F.T, rtol=1e-13):
+            return ["fseB"]
+        wB, VB = la.eigh(F @ F.T, driver="ev")
+        s_, v_ = D.finite_strain(F)
+        if not (np.isclose(Expr.of(t["fse_s"]).v({"w": wB, "V": VB}), s_, rtol=1e-12)
+                and np.allclose([Expr.of(x).v({"w": wB, "V": VB}) for x in t["fse_v"]], v_, rtol=1e-12)):
+            return ["fse"]
+    return []
